@@ -311,7 +311,7 @@ PROPS["C19"] = {
     "technique": "Verus contracts on the real fast_forward_singleton (guards + three-field frame over assumed clvm-traits codecs), compute_puzzle_fingerprint and hash_atom_list (framed-atom stream spec, hint rule tied to the condition parser's by a lemma), MempoolVisitor::{new_spend, condition, post_spend} and EmptyVisitor, all extracted verbatim",
     "level_text": "Deductive proof for every allocator tree, coin triple and flag word: (1) fast_forward_singleton returns Ok only for a genuine singleton spend of the stated coin - odd amounts, one puzzle hash shared by coin, new parent and new coin and equal to the tree hash of the revealed puzzle, singleton mod hash in both the curried struct and the revealed module, solution amount == coin amount, lineage proof hashing to the coin's parent id, inner puzzle hash matching, new coin a child of new parent - and the solution it returns decodes to the original with exactly lineage parent, parent amount and coin amount replaced; (2) the dedup fingerprint is sha256 of the length-framed atoms of every known condition with a fixed arity per opcode, a CREATE_COIN hint framed exactly when the parser's hint rule reports one (lemma against the C01 rule table), anything else refused (iff); (3) a signature or message condition always clears dedup eligibility and nothing else touches it during parsing; fast-forward eligibility is cleared exactly by the listed commitments; post_spend keeps dedup only when created value >= consumed and fast-forward only when the spend re-creates (own puzzle hash, own amount); visitors change nothing but the flags.",
     "level_note": "Assumed: the derived clvm-traits codecs of CurriedProgram<SingletonArgs>/SingletonSolution (FromClvm total function of the tree, ToClvm then FromClvm = identity), curry_and_treehash as an uninterpreted function, tree_hash's contract (proved in unit tree_hash), HashSet iterator adaptors any/map/sum (shims). Re-running the rewritten solution is CLVM execution (out of reach).",
-    "components": [V("mempool_visitor"), V("fast_forward"), V("fingerprint"), V("curry"), N("native_dedup_ground", "dedup_ground")],
+    "components": [V("mempool_visitor"), V("fast_forward"), V("fingerprint"), V("curry"), N("native_dedup_ground", "dedup_ground"), N("native_ff_ground", "ff_ground")],
     "assumptions": ["fewer than 2^31 conditions per spend (allocator limit) as precondition of condition()", "clvm-traits derived codecs (uninterpreted, round-trip assumed)",
                     "SHA-256 ghost model; u32::to_be_bytes uninterpreted"],
     "not_covered": [
